@@ -46,6 +46,13 @@ func plans(prop, tier string) []drv.Plan {
 				}
 			}
 		}
+		// Close racing with the Writes: a Write issued while Close drains still returns at once, deliveries stay one at
+		// a time, in order, each the argument of one Write
+		for _, s := range []shape{{1, 2, 2}, {2, 1, 2}, {1, 3, 1}} {
+			for _, mode := range []string{"waiter", "poller"} {
+				add(s.P, s.W, s.N, mode, "normal", "closeearly", b)
+			}
+		}
 		// no alerter: overflowing the ring must stay silent - the destination only ever receives what was written
 		for _, s := range []shape{{1, 3, 1}, {2, 2, 1}, {1, 4, 2}} {
 			for _, mode := range []string{"waiter-na", "poller-na"} {
